@@ -19,7 +19,7 @@ RULE = ("grid world in {LineWorld, GridWorld, DiscreteWorld incl. zero-extent ax
         "or ndarray table of the world's dimensionality; every value encodes (component serial, x, y, z); non-trivial = "
         "non-cubic world with >=2 populated axes, >=2 live components of different source kinds at once and >=1 removal "
         "followed by a full read-back; distinct = (shape, sequence of (op, source kind, live count))"
-        "; also: generator objects reused across components (table edited in place / rebound, constant changed), re-adding a live name, sequence-valued constants, a ConstantGenerator subclass, tables mixing text and numbers, callables mixing exact ints with fractional floats / numeric-looking text, a callable source object that also has len / indexing, a live name re-added from a callable that reads its own previous values, a second discrete world in the same process using the same component names; rare switch for known finding F12")
+        "; also: generator objects reused across components (table edited in place / rebound, constant changed), re-adding a live name, sequence-valued constants, a ConstantGenerator subclass, tables mixing text and numbers, callables mixing exact ints with fractional floats / numeric-looking text, a callable source object that also has len / indexing, a live name re-added from a callable that reads its own previous values, datetime64 / timedelta64 and object-with-None array sources, a second discrete world in the same process using the same component names; rare switch for known finding F12")
 COMPONENTS = {"real": ["ECAgent.Environments.DiscreteWorld.add_cell_component / remove_cell_component / cells / get_cell",
                        "ConstantGenerator", "LookupGenerator", "LineWorld / GridWorld constructors", "pandas.DataFrame"],
               "stub": ["callable generators and source buffers are harness-built"]}
@@ -40,7 +40,7 @@ LEVEL_NOTE = ("Trusted: the per-cell reference; the set of cells is taken from t
               "positive extents.")
 SHRINK_LISTS = ["ops"]
 KINDS = ["callable", "list", "ndarray_int", "ndarray_float", "const", "lookup_list", "lookup_nd", "lookup_reuse",
-         "lookup_rebind", "const_reuse", "const_tuple", "const_subclass", "callable_container", "callable_reads_self"]
+         "lookup_rebind", "const_reuse", "const_tuple", "const_subclass", "callable_container", "callable_reads_self", "ndarray_datetime", "ndarray_object"]
 
 
 class Raster:
@@ -114,6 +114,13 @@ def generate(rng, tier):
 
 
 def _same(a, b):
+    if b is None or a is None:
+        return a is None and b is None
+    if isinstance(b, (np.datetime64, np.timedelta64)):
+        try:
+            return not isinstance(a, (int, float)) and bool(a == b)      # a time stamp / duration, not a bare count
+        except Exception:
+            return False
     if isinstance(b, tuple):
         return isinstance(a, tuple) and a == b
     if isinstance(b, str) or isinstance(a, str):
@@ -246,6 +253,15 @@ def execute(sc, ctx):
             elif src == "ndarray_float":
                 buf = np.array([enc(serial, (0, 0, i)) + 0.5 for i in range(n)], dtype=float)
                 gen, vals = buf, [float(v) for v in buf]
+            elif src == "ndarray_datetime":
+                # an array of time stamps / durations (nanosecond unit): each cell holds ITS element, as a time stamp / duration
+                base = np.datetime64("2020-01-01T00:00:00", "ns") if serial % 2 else np.timedelta64(0, "ns")
+                buf = np.array([base + np.timedelta64(enc(serial, (i, 0, 0)), "ns") for i in range(n)])
+                gen, vals = buf, list(buf)
+            elif src == "ndarray_object":
+                # an object array with gaps: numbers and None, kept as they are
+                buf = np.array([None if i % 3 == 1 else enc(serial, (0, i, 0)) for i in range(n)], dtype=object)
+                gen, vals = buf, list(buf)
             elif src == "const":
                 gen = ConstantGenerator(serial * 7 + 1)
                 vals = [serial * 7 + 1] * n
